@@ -9,7 +9,7 @@ From Coq Require Import ZArith QArith List Reals Bool Lia.
 From DV Require Import Base.Field Base.LinAlg Base.RInst Base.QcInst Model.Losses Model.LossesR Model.RegStencil
   Model.Regularisers Gen.Regs Proofs.C16Lists Proofs.C17Stencil Proofs.C17Sobel Proofs.C17Loss Proofs.C17Lame
   Proofs.C17Gen Proofs.C17Real Proofs.C17BSpline.
-From DV Require Import Gen.BSpline.
+From DV Require Import Gen.BSpline Gen.FlowDeriv.
 Import ListNotations.
 Local Open Scope fld_scope.
 
@@ -231,6 +231,20 @@ Proof. exact ic_units_ok. Qed.
 Print Assumptions C17_inverse_consistency_uses_grid_flag.
 
 (* ================= 6. the loss formulas are the source's (translator tie) ============================== *)
+(* the stencil model is the stencils traced from core/image.py (Gen/FlowDeriv.v; that translator unit also checks,
+   fail-closed, that every position uses the clamped = replicate-padded neighbours) *)
+Theorem C17_stencil_is_traced :
+  forall (K : fld), is_field K -> char0 K -> forall sh (h : K) d (f : idx -> K) (q : idx),
+  smooth sh (1 + 1) d f q = gen_avg_sobel (f (cshift sh d q (-1))) (f q) (f (cshift sh d q 1)) /\
+  smooth sh 1 d f q = gen_avg_prewitt (f (cshift sh d q (-1))) (f q) (f (cshift sh d q 1)) /\
+  (h <> 0 ->
+   (RegStencil.get d q = 0%Z -> fd sh h d f q = gen_fcb_first (f q) (f (shift d q 1)) h) /\
+   (RegStencil.get d q <> 0%Z -> RegStencil.get d q = (nth d sh 0 - 1)%Z -> fd sh h d f q = gen_fcb_last (f (shift d q (-1))) (f q) h) /\
+   (RegStencil.get d q <> 0%Z -> RegStencil.get d q <> (nth d sh 0 - 1)%Z ->
+    fd sh h d f q = gen_fcb_mid (f (shift d q (-1))) (f (shift d q 1)) h)).
+Proof. exact stencil_tie. Qed.
+Print Assumptions C17_stencil_is_traced.
+
 Theorem C17_gen_coefficients_2d :
   forall (K : fld), is_field K -> char0 K ->
   forall m (sp : list K) (i : idx) (fabs : K -> K) (lam mu : K) (nx ny : Z) (u v : idx -> K),
